@@ -364,15 +364,11 @@ def c02ResetLogon : Sess.InMsg :=
               | .reset => some "reset" | _ => none))
         == ["saved 1 A", "wire 1 A", "saved 2 D", "reset", "saved 1 D", "saved 2 D", "wire 1 D", "wire 2 D"]
 
-/-- not proved: the STATE-level reading of the same clause — at the moment a first-time message is written,
-    `store.lookup` of its number succeeds.  `C02_seq_epoch` proves the observation-level reading (saved since the last
-    reset, and resets are the only way the model's store forgets); connecting the two needs one more invariant
-    ("every `saved` of the epoch is bound in `store.msgs`"), left as a statement.  As stated (all histories) it is false
-    when the application itself submits a Logon with ResetSeqNumFlag=Y (excluded by `benign` in `C02_seq_epoch`). -/
-def C02_seq_store_has_message_at_wire_full : Prop :=
-  ∀ (cfg : Sess.Cfg) (s0 t0 : Int) (evs : List Sess.Ev) (e : Sess.Ev), cfg.persist = true →
-    ∀ m, Sess.Obs.wire m ∈ (Sess.step (C02seq.runEvents (Sess.initSess cfg s0 t0) evs) e).2.1 →
-      Sess.C02.firstTime m = true → ∃ n, (Sess.step (C02seq.runEvents (Sess.initSess cfg s0 t0) evs) e).1.store.lookup m.seq = some n
+/-! Remark on readings.  "Retrievable from the store no later than it reaches the wire" is stated on the observation
+trace (`C02_seq_epoch`: a `saved (n, kind, resendable)` since the last `reset` precedes the first-time `wire`), not on
+the store AFTER the event: an event may write and then legitimately reset (a Logout answered under ResetOnLogout
+flushes the Logout and then calls dropAndReset), so "the store after the step still holds n" is false for correct
+behaviour.  Resets are the only way the model's store forgets, hence the observation-level statement is the exact one. -/
 
 /-!
 Clause checklist (properties.jsonl C02 → theorems)
